@@ -34,6 +34,26 @@ def validate_payloads(rnd):
         "must_match(other = \"pw\")", "schema(function = \"f\")", "", "length(min = 1) length(max = 2)".replace(") l", "), l"),
         'length(message = "%s", message = "%s")' % (t, t[::-1]), "range(max = -(-5))", 'email, url, length(min = 1, max = 1, message = "%s")' % t,
     ]
+    if rnd.random() < 0.35:
+        # token soup: any sequence of the attribute's own vocabulary that still lexes (balanced parentheses, commas often missing) —
+        # the structured reader gives up on most of these and the text-scanning fallback gets them
+        vocab = ["length", "range", "email", "url", "min", "max", "message", "custom", "function", "other", "all", "any", "=", "=", ",", "1", "-2.5", "0",
+                 '"check_length"', '"in_range"', '"has (paren) and length("', '"url)"', "limits", "my_range", "lengthy", "x::length", "range_of"]
+        out, depth = [], 0
+        for _ in range(rnd.randint(2, 14)):
+            r = rnd.random()
+            if r < 0.22:
+                out.append("(")
+                depth += 1
+            elif r < 0.4 and depth > 0:
+                out.append(")")
+                depth -= 1
+            else:
+                out.append(rnd.choice(vocab))
+        out.extend(")" * depth)
+        return " ".join(out)
+    cands += ['custom(function = "check_length") other(1)', 'custom(function = "in_range") limits(0, 5)', "all(length) any(min = 1)", "range) (", "length max(3)",
+              'custom(function = "f") length(min = 1)', "length(min = 1) email", "email length(min = 1 max = 2)"]
     return rnd.choice(cands)
 
 
